@@ -28,7 +28,11 @@ Inductive sop : Type :=
 | OComment (p : path) (name comment : list Z)
 | OProt (p : path) (name : list Z) (bits : Z)
 | OLookup (p : path) (name : list Z)
-| OList (p : path).
+| OList (p : path)
+(* undelete: the entry that was removed from directory p is back exactly as it was when it was removed (a directory can only be
+   removed empty); refused when the directory is gone or the name is taken again.  Whether the blocks of a deleted entry are still
+   intact is not something this model knows: the correspondence replays a refused undelete as no operation. *)
+| ORestore (p : path) (nd : snode).
 
 Inductive sres : Type :=
 | RErr
@@ -297,11 +301,24 @@ Section Spec.
         | None => (root, hs, RErr)
         | Some ch => (root, hs, RList ch)
         end
+    | ORestore p nd =>
+        match get_dir root p with
+        | None => (root, hs, RErr)
+        | Some ch =>
+            match find ch (sname nd) with
+            | Some _ => (root, hs, RErr)
+            | None => (upd_dir root p (fun ch => ch ++ [nd]), hs, ROk)
+            end
+        end
     end.
 End Spec.
 
 Definition sstep (s : sstate) (o : sop) : sstate * sres :=
   let '(r, h, x) := step (s_intl s) (s_root s) (s_handles s) o in
   ({| s_intl := s_intl s; s_root := r; s_handles := h |}, x).
+
+(* the entry `name` of directory p, as the driver of the correspondence remembers it when it is removed *)
+Definition lookup_node (s : sstate) (p : path) (name : list Z) : option snode :=
+  match get_dir (s_intl s) (s_root s) p with Some ch => find (s_intl s) ch name | None => None end.
 
 Definition sinit (intl : bool) : sstate := {| s_intl := intl; s_root := []; s_handles := [] |}.
